@@ -100,6 +100,15 @@ def generate(rng, tier):
                 k = (used - len(j)) // 2
                 doc = b"[[" + b"1," * k + j + b'"' + sj(body) + b'"]]'
                 cases.append({"lines": [f"ser {cap} 0 {_hex(doc)}"], "cls": "string-through-serializer", "nontrivial": True, "via": "c06"})
+    # a heavily expanding string (every byte becomes \\u00XX) requested when the buffer is part full: the reservation 6n+35 is at most
+    # twice the capacity but used + reservation is more - the growth step must still make room for all of it
+    for cap in (64, 256):
+        for n in sorted({max(1, (2 * cap - 35) // 6 - j) for j in (0, 1, 2, 5, 9)} | {max(1, cap // 6), max(1, cap // 4)}):
+            for f in (range(0, cap + 8, 8) if not quick else rng.sample(range(0, cap + 8, 8), min(10, cap // 8))):
+                for ctl in (1, 0x1F):
+                    doc = b'["' + b"x" * f + b'","' + sj(bytes([ctl]) * n) + b'"]'
+                    cases.append({"lines": [f"ser {cap} {rng.choice([0, 0, 1])} {_hex(doc)}"], "cls": "expanding-string-in-part-full-buffer",
+                                  "nontrivial": True, "via": "c06"})
     return cases
 
 
